@@ -46,7 +46,8 @@ def script(tag, sc, bwd, fpath, cycles):
     return L
 
 
-def events(tag, sc, res, bwd, cycles):
+def events(tag, sc, res, bwd, cycles, proj=None):
+    proj = proj or sess.project
     ev = [json.dumps({"e": "Reset"})]
     it = iter(res)
 
@@ -58,7 +59,7 @@ def events(tag, sc, res, bwd, cycles):
     try:
         nx("new"); nx("read")
         st = nx("states"); nx("writenv")
-        base = sess.project("%s/%s-o0.p21" % (bwd, tag), st["list"])
+        base = proj("%s/%s-o0.p21" % (bwd, tag), st["list"])
         ev.append(json.dumps({"e": "Given", "pop": base}))
         cur = base
         for i in range(len(sc["file"])):
@@ -72,8 +73,8 @@ def events(tag, sc, res, bwd, cycles):
         for c in range(cycles):
             nx("new"); nx("readws")
             st = nx("states"); nx("writenv"); nx("writews")
-            wfile = sess.project("%s/%s-w%d.ws" % (bwd, tag, c + 1))
-            pop = sess.project("%s/%s-p%d.p21" % (bwd, tag, c + 1), st["list"])
+            wfile = proj("%s/%s-w%d.ws" % (bwd, tag, c + 1))
+            pop = proj("%s/%s-p%d.p21" % (bwd, tag, c + 1), st["list"])
             ev.append(json.dumps({"e": "ReadWorking", "wfile": wfile, "pop": pop}))
             w1 = data_lines("%s/%s-w%d.ws" % (bwd, tag, c + 1))
             w2 = data_lines("%s/%s-w%d.ws" % (bwd, tag, c + 2))
@@ -85,13 +86,70 @@ def events(tag, sc, res, bwd, cycles):
             if c == cycles - 1:
                 nx("new"); nx("read")
                 st3 = nx("states"); nx("writenv")
-                xpop = sess.project("%s/%s-x2.p21" % (bwd, tag), st3["list"])
+                xpop = proj("%s/%s-x2.p21" % (bwd, tag), st3["list"])
                 ev.append(json.dumps({"e": "Compare", "xpop": xpop, "resave": resave}))
             elif not resave:
                 ev.append(json.dumps({"e": "Compare", "xpop": [], "resave": False}))
     except StopIteration as s:
         ev.append(s.args[0] if s.args else json.dumps({"e": "Crash"}))
     return ev
+
+
+def family_segments(ctx, wd, cycles):
+    """C16 on generated schemas: the populations and state assignments of spec/Population.tla, same scenario and
+    same trace specification, through the generic projection"""
+    from checks import c01
+    from vf import build, express
+    from vf.common import sha
+    cases = []
+    g = tlc.run_tlc("Population_Gen", None, workers=4, timeout=900, on_case=cases.append,
+                    cfg_text="CONSTANTS Deep = %s Rounds = %d\nINIT Init\nNEXT Next\nINVARIANT Emit\n" % ("FALSE" if ctx.quick else "TRUE", 3 if ctx.quick else 7))
+    if g.rc != 0 or g.errors:
+        raise InfraError("Population_Gen failed: %s" % g.tail[-10:])
+    by = {}
+    for c in cases:
+        if c["conforming"]:
+            by.setdefault(json.dumps(c["choice"], sort_keys=True), []).append(c)
+    keys = sorted(by)
+    if ctx.quick:
+        strata = {}
+        for k in keys:
+            ch = json.loads(k)
+            strata.setdefault((ch["inh"], ch["ts"]["k"], ch["ts"].get("of", "")), []).append(k)
+        keys = sorted(v[len(v) // 2] for v in strata.values())
+
+    def one(k):
+        cs = sorted(by[k], key=lambda c: c["n"])
+        txt = express.render(cs[0]["schema"])
+        tag0 = "c02_" + sha(txt)[:10]
+        try:
+            lib = build.schema_lib(tag0, txt)
+            drv = build.link_driver("session_" + tag0, [c01.DRV], schema=lib)
+        except build.BuildFailure as ex:
+            return k, None, str(ex)[-400:]
+        bwd = mkdir(os.path.join(wd, "fam_" + sha(k)[:8]))
+        scripts, metas = [], []
+        for c in cs:
+            tag = "G%s_%d" % (sha(k)[:8], c["n"])
+            f = os.path.join(bwd, tag + "_in.p21")
+            text = c01.render_pop(cs[0]["schema"]["name"], c["pop"], "compact")
+            open(f, "w").write(text)
+            sc = {"file": [{"id": i["id"]} for i in c["pop"]], "states": c["states"]}
+            scripts.append((tag, script(tag, sc, bwd, f, cycles)))
+            metas.append((tag, sc, text))
+        res = sess.run_scripts(drv, scripts, bwd)
+        segs = [(events(tag, sc, res.get(tag, []), bwd, cycles, sess.project_generic), {"schema": k, "states": sc["states"], "file": text})
+                for tag, sc, text in metas]
+        shutil.rmtree(bwd, ignore_errors=True)
+        return k, segs, ""
+    out = []
+    with cf.ThreadPoolExecutor(max_workers=3) as ex:
+        for k, segs, err in ex.map(one, keys):
+            if segs is None:
+                ctx.violation("family-build|" + k, "generated library of a family schema does not build: " + err[-200:], {"choice": k})
+                continue
+            out.extend(segs)
+    return out, len(keys)
 
 
 def run(ctx):
@@ -134,10 +192,20 @@ def run(ctx):
     with cf.ThreadPoolExecutor(max_workers=12) as ex:
         for r in ex.map(lambda a: batch(*a), [(i, items[i:i + B]) for i in range(0, len(items), B)]):
             segs.extend(r)
+    fam, nfam = family_segments(ctx, wd, cycles)
+    nmodel = len(segs)
+    segs = segs + [e for e, m in fam]
     acc, rej = tlc.validate_segments("Session_Trace", "Session_Trace.cfg", segs, os.path.join(ctx.work, "v"),
                                      parallel=8, max_events=6000)
     for r in rej:
         ev = json.loads(r["line"]) if r["line"] else {}
+        if r["segment"] >= nmodel:
+            m = fam[r["segment"] - nmodel][1]
+            ctx.violation("family-ws|%s|%s|%s" % (ev.get("e"), m["schema"], "".join(m["states"])),
+                          "generated schema %s, states %s: recorded %s is not a step of Session: %s" % (
+                              m["schema"][:80], "".join(m["states"]), ev.get("e"), r["line"][:300]),
+                          {"schema": m["schema"], "states": m["states"], "file": m["file"], "event": ev, "trace": segs[r["segment"]]})
+            continue
         sc = scen[r["segment"]]
         ids = [x["id"] for x in sc["file"]]
         ctx.violation("ws|%s|file%s|%s" % (ev.get("e"), ids, "".join(sc["states"])),
@@ -147,6 +215,7 @@ def run(ctx):
     cov.update({
         "traces_validated_against_impl": acc, "exhaustive": True, "scenarios": len(scen),
         "events": sum(len(s) for s in segs), "rejected": len(rej), "save_load_cycles": cycles,
+        "generated_schema_family": {"schemas": nfam, "scenarios": len(fam)},
         "samples": [{"scenario": scen[7], "events": [json.loads(x) for x in segs[7]]}] if len(scen) > 7 else [],
         "evaluations": len(scen), "distinct_nontrivial": len(scen),
         "rule": "base file x every state assignment in {C,I,N,D}^n with deleted instances unreferenced; all "
